@@ -14,6 +14,7 @@ from ovnitrace import Scratch
 PID = "C10"
 WHATS = ["ENOSPC", "EIO", "EACCES", "short"]
 REPORTED = set()
+# the readdir order only matters to the code before `fix: relocate stream.obs before stream.json`
 CONFIGS = [("direct", False, None), ("tmp-obs-first", True, ".:oj"), ("tmp-json-first", True, ".:jo")]
 
 
@@ -21,7 +22,8 @@ def site_key(calls, i, cfgname):
     """Stable key of the call site that failed (index i of the fault-free log)."""
     c = calls[i] if i < len(calls) else "?"
     kind = c.split(":")[0]
-    opened = next((j for j, x in enumerate(calls) if x.startswith("opendir:")), None)
+    # the relocation is everything after close(streamfd)
+    opened = next((j for j, x in enumerate(calls) if x == "close"), None)
     if kind == "close":
         return "close-streamfd-unchecked"
     if kind == "opendir":
@@ -201,7 +203,7 @@ def load_replay(path):
 
 def check(res, tier, replay=None):
     res.cov["rule"] = ("conformant single-thread programs run on the real libovni (direct and OVNI_TMPDIR mode, both readdir "
-                       "orders); for EVERY intercepted libc call index and each of ENOSPC/EIO/EACCES/short one run with that "
+                       "orders, which only matter to the code before the fix); for EVERY intercepted libc call index and each of ENOSPC/EIO/EACCES/short one run with that "
                        "call failing; abort vs. return, the calls made after the fault and the final directory contents must "
                        "equal the model's prediction; oracle on the implementation: returned normally => final trace complete "
                        "(finished marker, every flushed event, accepted by ovniemu -l) and, whatever the outcome, a complete "
